@@ -9,6 +9,7 @@ import (
 	"io/fs"
 	"os"
 	"path/filepath"
+	"reflect"
 	"regexp"
 	"sync"
 	"time"
@@ -1181,7 +1182,10 @@ func (db *DB) Repair(of Object) (err error) {
 			continue
 		}
 
-		if o, err = db.getByUUID(of, uuid); err != nil {
+		// we decode every file into a fresh object, otherwise fields omitted
+		// from a file would keep the value found in the previous one
+		fresh := reflect.New(typeof(of)).Interface().(Object)
+		if o, err = db.getByUUID(fresh, uuid); err != nil {
 			return
 		}
 
